@@ -99,6 +99,61 @@ func ruleC17_1(c *Ctx, r *Rep) {
 			r.Fail("C17.1", "C17.1:create(subscriptions)", fn.Pos(), fmt.Sprintf("expected one create, found %d", len(cr)))
 		}
 	}
+	// the other create operations: topic and snapshot
+	for _, sp := range []struct {
+		handler, params, action, table string
+		req                            map[string]string
+		cols                           map[string]string
+	}{
+		{"(*services.publisherServer).CreateTopic", "CreateTopicParams", "(*actions.CreateTopic).Execute", "topics",
+			map[string]string{"Name": "field:Name", "Labels": "field:Labels"}, map[string]string{"name": "params.Name", "labels": "params.Labels"}},
+		{"(*services.subscriberServer).CreateSnapshot", "CreateSnapshotParams", "(*actions.CreateSnapshot).Execute", "snapshots",
+			map[string]string{"Name": "field:Name", "Labels": "field:Labels", "SubscriptionName": "field:Subscription"}, map[string]string{"name": "params.Name", "labels": "params.Labels"}},
+	} {
+		short := sp.handler[strings.LastIndex(sp.handler, ".")+1:]
+		if h := r.Anchor("C17.1", sp.handler); h != nil {
+			st := fieldStores(h, modPath+"/actions", sp.params)
+			var fs []string
+			for f := range sp.req {
+				fs = append(fs, f)
+			}
+			sort.Strings(fs)
+			for _, f := range fs {
+				ok := false
+				for _, s := range st[f] {
+					if anySrc(s.Val, sp.req[f]) {
+						ok = true
+					}
+				}
+				pos := h.Pos()
+				if len(st[f]) > 0 {
+					pos = st[f][0].Pos()
+				}
+				r.Check("C17.1", "C17.1:request→"+sp.params+"."+f, pos, ok, "", short+" does not take "+f+" from the request ("+sp.req[f]+"): the configured value is dropped — the create reply echoes it, a later Get / List does not show it")
+			}
+		}
+		if fn := r.Anchor("C17.1", sp.action); fn != nil {
+			cr := c.findStmts(sp.action, sp.table, "create")
+			if len(cr) != 1 {
+				r.Fail("C17.1", "C17.1:create("+sp.table+")", fn.Pos(), fmt.Sprintf("expected one create, found %d", len(cr)))
+				continue
+			}
+			var cols []string
+			for k := range sp.cols {
+				cols = append(cols, k)
+			}
+			sort.Strings(cols)
+			for _, col := range cols {
+				ms := cr[0].Mut(col)
+				// (a second write may supply the empty default when the parameter is absent)
+				ok := false
+				for _, m := range ms {
+					ok = ok || hasPathSuffix(sources(m.Arg), sp.cols[col])
+				}
+				r.Check("C17.1", "C17.1:params→"+sp.table+"."+col, cr[0].Pos, ok, "", sp.table+"."+col+" is not stored from "+sp.cols[col])
+			}
+		}
+	}
 	if fn := r.Anchor("C17.1", "services.entSubscriptionToGrpc"); fn != nil {
 		sub := fieldStores(fn, pbPkg, "Subscription")
 		checkDeps(c, r, "C17.1", "entSubscriptionToGrpc", fn, sub, []depSpec{
